@@ -42,6 +42,14 @@
 ; C12/C13: the canonical (ascending) enumeration of the names in a domain
 (declare-fun sortedKeyOf ((Array Str Bool) Int) Str)
 (define-fun strlt ((a Str) (b Str)) Bool (str.lt a b))
+; the same device for the property names of an object literal (the parser lists each name once; that fact is not part of the
+; node's type invariant, so the contents clause of the ObjectLiteral rule is stated under distinctKeysOf)
+(declare-fun keyIndex (Str) Int)
+(declare-fun distinctKeysOf (Int) Bool)
+; callBudget(i): how many more interpreted calls may be nested inside the current one before the interpreter refuses with a
+; runtime error. The interpreter keeps no such counter: the symbol is uninterpreted, so the re-entry obligation of
+; (*Function).Call (its measure has decreased when the body is evaluated) cannot be discharged -- known finding D-19.
+(declare-fun callBudget (Int) Int)
 ; "the parameter names are pairwise distinct", stated through an (arbitrary) indexing of names: forall k: nameIndex(P[k]) == k
 (declare-fun nameIndex (Str) Int)
 ; distinctParamsOf(d): "the parameter names of declaration d are pairwise distinct" -- an otherwise uninterpreted predicate that
